@@ -8,7 +8,7 @@ from . import _sched as S
 from .C02 import WITNESSES
 
 PROP = "C04"
-GEN_REGIONS: List[str] = []
+GEN_REGIONS: List[str] = ["Sched", "Utils"]
 THEOREMS = {
     "SpecKitV.Lemmas.SchedLtf": ["ltfStep_mono", "ltfStep_logspaced", "ltfStep_K"],
     "SpecKitV.Lemmas.Starts": ["nsegRaw_eq", "capK_le", "startsEven_safe", "startsAccum_safe", "overlapMean_eq_closed", "overlapMean_accum_eq_closed"],
